@@ -231,6 +231,25 @@ func c13Model(c *hx.Ctx, r *hx.RNG) {
 		}
 		v = r.Finite(r.Range(1, 200), le)
 	}
+	if r.Intn(2500) == 0 && ft != 'p' && ft != 'b' {
+		// runs of more than a million zeros: in front of the radix point ('f' of a short value with a huge exponent, 'g'
+		// with a precision beyond it) or behind the digits ('e' with a precision a million above the digit count)
+		v, cls = r.Finite(r.Range(1, 30), int64(r.Range(-20, 20))), "million-zeros"
+		switch ft {
+		case 'e', 'E':
+			prec = r.Range(1000001, 1300000)
+		case 'f':
+			if r.Bool() {
+				v.Exp += int64(r.Range(1000001, 1300000))
+				prec = r.Range(0, 3)
+			} else {
+				prec = r.Range(1000001, 1300000)
+			}
+		default:
+			v.Exp += int64(r.Range(1000001, 1200000))
+			prec = r.Range(1200001, 1300000)
+		}
+	}
 	v = inRange(v)
 	xprec := digitsOf(v) + uint(r.Intn(3)*r.Intn(20))
 	x := hx.MkR(r, v, xprec, mode)
@@ -284,6 +303,9 @@ func c13Model(c *hx.Ctx, r *hx.RNG) {
 		width := -1
 		if r.Chance(70) {
 			width = r.Range(0, 60)
+			if r.Chance(8) {
+				width = r.Range(100, 900) // padding written in more than one piece
+			}
 		}
 		format := "%" + flags
 		if width >= 0 {
